@@ -117,6 +117,66 @@ def check_rejects(model, rep, m, store):
                'Powertrain.__init__[motor type]', 'a non-motor argument is not rejected with TypeError', loc=m.loc)
 
 
+def _elements_iter(node):
+    return isinstance(node, (ast.Attribute, ast.Name)) and ast.unparse(node) in ('self.elements', 'self.__elements', 'elements')
+
+
+def _conj(node):
+    if isinstance(node, ast.BoolOp) and isinstance(node.op, ast.And):
+        return [c for v in node.values for c in _conj(v)]
+    return [node]
+
+
+def _comprehension_forms(rep, R, m, tail) -> bool:
+    """the scan written as a comprehension instead of the for-loop: `any(...)` quantifies over every
+    element (decided here), `next(...)` consults the first match only (a violation when the flag hangs on it)"""
+    stores = [s for s in tail for n in ast.walk(s) if isinstance(n, ast.Assign)
+              and any(isinstance(t, ast.Attribute) and t.attr == '__self_locking' for t in n.targets) for s in [n]]
+    if len(stores) != 1:
+        return False
+    val = stores[0].value
+    loc = f'{m.module}:{stores[0].lineno}'
+    # names bound by next(<generator over the elements>, default)
+    firsts = {}
+    for s in tail:
+        for n in ast.walk(s):
+            if isinstance(n, ast.Assign) and len(n.targets) == 1 and isinstance(n.targets[0], ast.Name) \
+                    and isinstance(n.value, ast.Call) and isinstance(n.value.func, ast.Name) and n.value.func.id == 'next' \
+                    and n.value.args and isinstance(n.value.args[0], ast.GeneratorExp) \
+                    and _elements_iter(n.value.args[0].generators[0].iter):
+                firsts[n.targets[0].id] = n.value.args[0]
+    used = {x.id for x in ast.walk(val) if isinstance(x, ast.Name)} & set(firsts)
+    inline_next = [x for x in ast.walk(val) if isinstance(x, ast.Call) and isinstance(x.func, ast.Name) and x.func.id == 'next'
+                   and x.args and isinstance(x.args[0], ast.GeneratorExp) and _elements_iter(x.args[0].generators[0].iter)]
+    if used or inline_next:
+        gen = firsts[sorted(used)[0]] if used else inline_next[0].args[0]
+        conds = [ast.unparse(c) for c in gen.generators[0].ifs]
+        selective = any('self_locking' in c for c in conds)
+        if not selective:
+            rep.violation(R, 'Powertrain.__init__:scan', f'the flag is decided by the first element matching `{" and ".join(conds) or "True"}` '
+                          f'only (next(...)): a self-locking worm gear further down the chain is never consulted', loc)
+            return True
+        return False
+    if isinstance(val, ast.Call) and isinstance(val.func, ast.Name) and val.func.id == 'any' and len(val.args) == 1 \
+            and isinstance(val.args[0], (ast.GeneratorExp, ast.ListComp)) and len(val.args[0].generators) == 1:
+        comp = val.args[0]
+        g = comp.generators[0]
+        if not (_elements_iter(g.iter) and isinstance(g.target, ast.Name)):
+            return False
+        x = g.target.id
+        parts = [c for cnd in g.ifs for c in _conj(cnd)] + _conj(comp.elt)
+        txt = {ast.unparse(c) for c in parts}
+        worm = {f'isinstance({x}, WormGear)'}
+        lock = {f'{x}.self_locking', f'{x}.self_locking is True', f'{x}.self_locking == True'}
+        ok = bool(txt & worm) and bool(txt & lock) and not (txt - worm - lock)
+        rep.holds(R, 'Powertrain.__init__:initial-flag', 'any(...) over no match is False', loc)
+        rep.holds(R, 'Powertrain.__init__:scan-coverage', 'any(...) over the whole element tuple', loc)
+        rep.decide(ok, R, 'Powertrain.__init__:scan', f'the flag is any({" and ".join(sorted(txt))}); specified: some element is a WormGear '
+                   f'whose self_locking is true', loc=loc)
+        return True
+    return False
+
+
 def check_locking(model, rep, m, R='C20.locking'):
     """evaluate the tail of __init__ (after the elements are stored) with the element tuple symbolic"""
     body = strip_docstring(m.node.body)
@@ -126,6 +186,8 @@ def check_locking(model, rep, m, R='C20.locking'):
             idx = i
     if idx is None:
         rep.cannot(R, 'Powertrain.__init__', 'store of the element tuple not found', m.loc)
+        return
+    if _comprehension_forms(rep, R, m, body[idx + 1:]):
         return
     ir = SolverIR(model, opaque_methods=())
     ir.install_subscript()
